@@ -9,13 +9,17 @@ import (
 	"encoding/hex"
 	"encoding/json"
 	"fmt"
+	"io"
+	mrand "math/rand"
 	"net"
 	"os"
+	"runtime"
 	"strings"
 	"sync"
 	"testing"
 	"time"
 
+	"github.com/flynn/noise"
 	"github.com/refraction-networking/conjure/pkg/registrars/dns-registrar/dns"
 	"github.com/refraction-networking/conjure/pkg/registrars/dns-registrar/encryption"
 	"github.com/refraction-networking/conjure/pkg/registrars/dns-registrar/requester"
@@ -26,6 +30,262 @@ type vcase struct {
 	Data   string   `json:"data"`
 	Domain []string `json:"domain"`
 	Resp   string   `json:"resp"`
+	// burst lane
+	K      int   `json:"k"`      // queries delivered back to back per round
+	Procs  int   `json:"procs"`  // GOMAXPROCS during the rounds
+	Rounds int   `json:"rounds"` // number of rounds
+	Seed   int64 `json:"seed"`
+	Keep   int   `json:"keep"` // rounds whose datagrams are reported in full
+}
+
+// ---- burst lane: k requesters whose queries reach the responder back to back ----
+
+type vclient struct {
+	Payload string `json:"payload"`
+	QID     int    `json:"qid"`   // DNS ID of this client's query
+	NResp   int    `json:"nresp"` // datagrams the responder addressed to this client
+	RID     int    `json:"rid"`   // DNS ID of the (first) datagram it was sent
+	Ok      bool   `json:"ok"`
+	Out     string `json:"out"`
+	Err     string `json:"err"`
+	Timeout bool   `json:"timeout"`
+	QWire   string `json:"qwire,omitempty"`
+	RWire   string `json:"rwire,omitempty"`
+}
+type vround struct {
+	Clients []vclient `json:"clients"`
+	Seen    []string  `json:"seen"` // payloads the callback was given, in call order
+	Err     string    `json:"err"`
+}
+
+type burstAddr string
+
+func (a burstAddr) Network() string { return "burst" }
+func (a burstAddr) String() string  { return string(a) }
+
+type burstDatagram struct {
+	p    []byte
+	addr net.Addr
+}
+
+// scriptedConn hands out the queued datagrams one after the other without blocking, then blocks until Close.
+type scriptedConn struct {
+	mu     sync.Mutex
+	in     []burstDatagram
+	out    chan burstDatagram
+	closed chan struct{}
+	once   sync.Once
+}
+
+func (c *scriptedConn) ReadFrom(p []byte) (int, net.Addr, error) {
+	c.mu.Lock()
+	if len(c.in) > 0 {
+		d := c.in[0]
+		c.in = c.in[1:]
+		c.mu.Unlock()
+		return copy(p, d.p), d.addr, nil
+	}
+	c.mu.Unlock()
+	<-c.closed
+	return 0, nil, io.EOF
+}
+func (c *scriptedConn) WriteTo(p []byte, addr net.Addr) (int, error) {
+	select {
+	case c.out <- burstDatagram{append([]byte(nil), p...), addr}:
+	case <-c.closed:
+	}
+	return len(p), nil
+}
+func (c *scriptedConn) Close() error                       { c.once.Do(func() { close(c.closed) }); return nil }
+func (c *scriptedConn) LocalAddr() net.Addr                { return burstAddr("responder") }
+func (c *scriptedConn) SetDeadline(t time.Time) error      { return nil }
+func (c *scriptedConn) SetReadDeadline(t time.Time) error  { return nil }
+func (c *scriptedConn) SetWriteDeadline(t time.Time) error { return nil }
+
+// clientConn is the requester's "UDP socket": what it writes is collected, what it reads is injected.
+type clientConn struct {
+	sent   chan []byte
+	in     chan []byte
+	closed chan struct{}
+	once   sync.Once
+	remote net.Addr
+}
+
+func (c *clientConn) Write(b []byte) (int, error) {
+	select {
+	case c.sent <- append([]byte(nil), b...):
+	case <-c.closed:
+	}
+	return len(b), nil
+}
+func (c *clientConn) Read(b []byte) (int, error) {
+	select {
+	case p := <-c.in:
+		return copy(b, p), nil
+	case <-c.closed:
+		return 0, io.EOF
+	}
+}
+func (c *clientConn) Close() error                       { c.once.Do(func() { close(c.closed) }); return nil }
+func (c *clientConn) LocalAddr() net.Addr                { return burstAddr("client") }
+func (c *clientConn) RemoteAddr() net.Addr               { return c.remote }
+func (c *clientConn) SetDeadline(t time.Time) error      { return nil }
+func (c *clientConn) SetReadDeadline(t time.Time) error  { return nil }
+func (c *clientConn) SetWriteDeadline(t time.Time) error { return nil }
+
+func burstAnswer(p []byte) []byte {
+	out := []byte("ans:")
+	for i := len(p) - 1; i >= 0; i-- {
+		out = append(out, p[i])
+	}
+	return out
+}
+
+const burstTarget = "127.0.0.1:5353"
+
+func burstRound(rng *mrand.Rand, k int, keepWire bool, dom dns.Name, domain string, priv []byte) (rd vround) {
+	pub := encryption.PubkeyFromPrivkey(priv)
+	remote, _ := net.ResolveUDPAddr("udp", burstTarget)
+	type result struct {
+		b   []byte
+		err error
+	}
+	conns := make([]*clientConn, k)
+	reqs := make([]*requester.Requester, k)
+	done := make([]chan result, k)
+	rd.Clients = make([]vclient, k)
+	for i := 0; i < k; i++ {
+		payload := make([]byte, rng.Intn(91))
+		rng.Read(payload)
+		rd.Clients[i].Payload = hex.EncodeToString(payload)
+		cc := &clientConn{sent: make(chan []byte, 4), in: make(chan []byte, 8), closed: make(chan struct{}), remote: remote}
+		conns[i] = cc
+		rq, err := requester.NewRequester(&requester.Config{
+			TransportMethod: requester.UDP, Target: burstTarget, BaseDomain: domain, Pubkey: pub,
+			DialTransport: func(ctx context.Context, network, addr string) (net.Conn, error) { return cc, nil },
+		})
+		if err != nil {
+			rd.Err = "requester: " + err.Error()
+			return
+		}
+		reqs[i] = rq
+		done[i] = make(chan result, 1)
+		go func(i int, payload []byte) {
+			b, err := rq.RequestAndRecv(payload)
+			done[i] <- result{b, err}
+		}(i, payload)
+	}
+	defer func() {
+		for i := range conns {
+			conns[i].Close()
+			_ = reqs[i].Close()
+		}
+	}()
+	// 1. every requester has encoded and "sent" its query
+	queries := make([][]byte, k)
+	for i := 0; i < k; i++ {
+		select {
+		case q := <-conns[i].sent:
+			queries[i] = q
+			if len(q) >= 2 {
+				rd.Clients[i].QID = int(q[0])<<8 | int(q[1])
+			}
+			if keepWire {
+				rd.Clients[i].QWire = hex.EncodeToString(q)
+			}
+		case <-time.After(20 * time.Second):
+			rd.Err = fmt.Sprintf("client %d never sent its query", i)
+			return
+		}
+	}
+	// 2. the k datagrams reach the responder back to back
+	sc := &scriptedConn{out: make(chan burstDatagram, 4*k), closed: make(chan struct{})}
+	for i := 0; i < k; i++ {
+		sc.in = append(sc.in, burstDatagram{queries[i], burstAddr(fmt.Sprintf("client-%d", i))})
+	}
+	noiseConfig := encryption.NewConfig()
+	noiseConfig.Initiator = false
+	noiseConfig.StaticKeypair = noise.DHKey{Private: priv, Public: pub}
+	rs := &Responder{privkey: priv, domain: dom, transport: sc, noiseConfig: noiseConfig, maxUDPPayload: 1280 - 40 - 8}
+	var mu sync.Mutex
+	go func() {
+		_ = rs.RecvAndRespond(func(p []byte) ([]byte, error) {
+			mu.Lock()
+			rd.Seen = append(rd.Seen, hex.EncodeToString(p))
+			mu.Unlock()
+			return burstAnswer(p), nil
+		})
+	}()
+	defer sc.Close()
+	// 3. route what the responder writes to the addressed client
+	got := 0
+	deadline := time.After(20 * time.Second)
+collect:
+	for got < k {
+		select {
+		case d := <-sc.out:
+			got++
+			var idx int
+			if _, err := fmt.Sscanf(d.addr.String(), "client-%d", &idx); err != nil || idx < 0 || idx >= k {
+				continue
+			}
+			cl := &rd.Clients[idx]
+			cl.NResp++
+			if cl.NResp == 1 {
+				if len(d.p) >= 2 {
+					cl.RID = int(d.p[0])<<8 | int(d.p[1])
+				}
+				if keepWire {
+					cl.RWire = hex.EncodeToString(d.p)
+				}
+			}
+			conns[idx].in <- d.p
+		case <-deadline:
+			break collect
+		}
+	}
+	// a little time for a surplus datagram, only looked for when something is already off
+	// 4. every requester returns
+	for i := 0; i < k; i++ {
+		wait := 20 * time.Second
+		if rd.Clients[i].NResp == 0 {
+			wait = 300 * time.Millisecond // nothing was addressed to it: RequestAndRecv blocks by design
+		}
+		select {
+		case res := <-done[i]:
+			rd.Clients[i].Ok = res.err == nil
+			rd.Clients[i].Out = hex.EncodeToString(res.b)
+			if res.err != nil {
+				rd.Clients[i].Err = res.err.Error()
+			}
+		case <-time.After(wait):
+			rd.Clients[i].Timeout = true
+		}
+	}
+	mu.Lock()
+	rd.Seen = append([]string{}, rd.Seen...)
+	mu.Unlock()
+	return
+}
+
+func burst(c vcase, r *vres) {
+	prev := runtime.GOMAXPROCS(c.Procs)
+	defer runtime.GOMAXPROCS(prev)
+	rng := mrand.New(mrand.NewSource(c.Seed))
+	dom := domainOf(c.Domain)
+	var labels []string
+	for _, l := range dom {
+		labels = append(labels, string(l))
+	}
+	priv, err := encryption.GeneratePrivkey()
+	if err != nil {
+		r.Err = "keygen: " + err.Error()
+		return
+	}
+	for i := 0; i < c.Rounds; i++ {
+		r.Rounds = append(r.Rounds, burstRound(rng, c.K, i < c.Keep, dom, strings.Join(labels, "."), priv))
+	}
+	r.Ok = true
 }
 // recConn records the datagrams that cross the requester's UDP socket.
 type recConn struct {
@@ -57,6 +317,7 @@ type vres struct {
 	SeenPay string `json:"seenpay"`  // what it was given
 	QWire   string `json:"qwire"`    // the query datagram
 	RWire   string `json:"rwire"`    // the response datagram
+	Rounds  []vround `json:"rounds,omitempty"`
 	NSent   int    `json:"nsent"`
 	NRecvd  int    `json:"nrecvd"`
 	Ok      bool   `json:"ok"`      // the query parsed
@@ -104,6 +365,8 @@ func runCase(c vcase) (r vres) {
 		r.Out = hex.EncodeToString(payload)
 	case "exchange": // real requester <-> real responder over loopback UDP
 		exchange(c, &r)
+	case "burst": // k real requesters whose queries reach one real responder back to back
+		burst(c, &r)
 	}
 	return
 }
@@ -205,6 +468,9 @@ func TestVerifC15Responder(t *testing.T) {
 	var wg sync.WaitGroup
 	sem := make(chan struct{}, 16)
 	for i, c := range cases {
+		if c.Op == "burst" {
+			continue
+		}
 		if c.Op != "exchange" {
 			res[i] = runCase(c)
 			continue
@@ -218,6 +484,11 @@ func TestVerifC15Responder(t *testing.T) {
 		}(i, c)
 	}
 	wg.Wait()
+	for i, c := range cases { // the burst lane changes GOMAXPROCS: on its own, after everything else
+		if c.Op == "burst" {
+			res[i] = runCase(c)
+		}
+	}
 	out, _ := json.Marshal(res)
 	if err := os.WriteFile(os.Getenv("VERIF_OUT"), out, 0o644); err != nil {
 		t.Fatal(err)
